@@ -60,7 +60,25 @@ def cases(draw, tier):
             "via_enum": draw(st.booleans())}
 
 
+EXTRA_SCHEMES = [gen.PRESETS["unifying"], gen.scale(gen.PRESETS["unifying"], 2.0), gen.PRESETS["extended"],
+                 gen.PRESETS["pseudodistance_half"], gen.PRESETS["induced"],
+                 [[0.0, 1.0, 1.0, 0.0, 1.0, 1.0], [0.5, 0.5, 0.0, 1.0, 1.0, 0.0]]]
+
+
 def check(case, ctx):
+    # generation dominates the cost: the drawn scheme, then a fixed family of schemes (unifying and a multiple, two
+    # schemes under which the score is not a metric, induced, a near-unifying one)
+    check_one(case, ctx)
+    if case.get("batched", True):
+        for sch in EXTRA_SCHEMES:
+            c = dict(case)
+            c["scheme"], c["batched"] = sch, False
+            c["family"] = "unifying" if sch[0][5] == sch[0][1] and sch[1][0] == sch[0][1] else "other"
+            c["at_most_one"] = not case["at_most_one"] if sch is EXTRA_SCHEMES[2] else case["at_most_one"]
+            check_one(c, ctx)
+
+
+def check_one(case, ctx):
     rankings, scheme, flag = case["dataset"]["rankings"], case["scheme"], case["at_most_one"]
     d, s = lib.mk_dataset(rankings), lib.mk_scheme(scheme)
     alg = get_algorithm(Algorithm.PICKAPERM) if case.get("via_enum") else PickAPerm()
@@ -114,4 +132,4 @@ def check(case, ctx):
 
 
 def subchecks():
-    return [HypSub("pickaperm", cases, check, 8000, 100000)]
+    return [HypSub("pickaperm", cases, check, 5000, 60000)]
